@@ -28,7 +28,7 @@ ANCHORS = ["coxeter.shapes.polyhedron:Polyhedron.compute_form_factor_amplitude",
 REQUIRED_MONITORS = ["Polyhedron.form_factor", "Polygon.form_factor", "Sphere.form_factor", "F(-q)=conj", "translation-phase",
                      "batch-vs-single", "oracle-second-opinion:box"]
 REQUIRED_CLASSES = ["q:zero", "q:along-normal", "q:perp-edge", "q:axis", "q:approach-normal", "q:approach-zero", "batch:(1,3)",
-                    "density!=1", "polygon:cw", "polygon:ccw", "mesh:voxel", "sphere:extreme-units", "batch:all-special"]
+                    "density!=1", "polygon:cw", "polygon:ccw", "mesh:voxel", "sphere:extreme-units", "batch:all-special", "q-form:float32"]
 WATCHDOG = {"quick": 1800, "thorough": 14400}
 _cache = {}
 
@@ -328,6 +328,13 @@ def run_case(i, rng, rec, tier, state):
         rec.cls("q-form:int")
         _call(rec, s, qi.astype(np.int64), name, info)
         _call(rec, s, qi[:2].astype(np.int32), name, info)
+    # wave vectors held in single precision (their values are exact doubles too; the answer is still a double-precision
+    # transform at those values) - taken from the small-|q| end as well, where differences of nearly equal terms decide
+    order = np.argsort(np.linalg.norm(q, axis=1))
+    q32 = q[np.concatenate((order[:3], order[-2:]))].astype(np.float32)
+    rec.cls("q-form:float32")
+    _call(rec, s, q32, name, info)
+    _call(rec, s, q32[:1].astype(np.float16).astype(np.float32), name, info)
     # the same wave vectors in other memory layouts (Fortran order, strided views, read-only) and as nested lists: the
     # postcondition judges each call against the transform; the answers must agree with the batch and the argument must stay
     if F is not None and F.shape == (len(q),):
